@@ -488,8 +488,10 @@ macro_rules! impl_cache_processor {
             #[inline]
             fn calculate_internal_cost(&self, cost: i64) -> i64 {
                 if !self.ignore_internal_cost {
-                    // Add the cost of internally storing the object.
-                    cost + (self.item_size as i64)
+                    // Add the cost of internally storing the object. A cost near i64::MAX (a
+                    // natural way to say "too big to cache") must not overflow: it saturates and
+                    // the policy refuses it as larger than max_cost.
+                    cost.saturating_add(self.item_size as i64)
                 } else {
                     cost
                 }
